@@ -225,8 +225,8 @@ func randomCuts(r *rng.R, n int, k int) []int {
 }
 
 // parseAll reads values until end of stream through a scripted reader.
-func c02parse(chunks [][]byte, want []resp.Value, eofWithData bool) (clause, detail string, readHash uint64) {
-	c := sconn.New(sconn.Script{Chunks: chunks, End: sconn.EOF, EOFWithData: eofWithData})
+func c02parse(chunks [][]byte, want []resp.Value, eofWithData bool, emptyReads ...bool) (clause, detail string, readHash uint64) {
+	c := sconn.New(sconn.Script{Chunks: chunks, End: sconn.EOF, EOFWithData: eofWithData, EmptyReads: len(emptyReads) > 0 && emptyReads[0]})
 	p := proto.NewParserWithReader(c)
 	for i, w := range want {
 		m, err := p.Next()
@@ -313,8 +313,16 @@ func c02run(idx int) run.Result {
 		o := 1 + r.Intn(len(stream)-1)
 		scheds = append(scheds, sched{fmt.Sprintf("split@%d+eof-with-last-read", o), chunkAt(stream, []int{o}), string(cls[o])})
 	}
+	// and a sample of the partitions with a read that returns (0, nil) - nothing happened, not the end of the
+	// stream - between every two chunks
+	for k, n := 0, len(scheds); k < 12 && n > 1; k++ {
+		s := scheds[1+r.Intn(n-1)]
+		if !strings.Contains(s.name, "+") && len(s.chunks) <= 4096 {
+			scheds = append(scheds, sched{s.name + "+empty-reads", s.chunks, s.class})
+		}
+	}
 	for _, s := range scheds {
-		clause, detail, rh := c02parse(s.chunks, vs, strings.HasSuffix(s.name, "+eof-with-last-read"))
+		clause, detail, rh := c02parse(s.chunks, vs, strings.HasSuffix(s.name, "+eof-with-last-read"), strings.HasSuffix(s.name, "+empty-reads"))
 		res.Count("schedules", 1)
 		if s.class != "" {
 			res.Count("split:"+splitName(s.class), 1)
@@ -372,7 +380,7 @@ func init() {
 	run.Register(&run.Prop{
 		ID: "C02", Level: "exploration",
 		Rule: func(tier string) string {
-			return "case = one sequence of 1..6 generated values plus a sentinel integer, ending in that integer, in a command array or in a bulk string (every tenth sequence carries a bulk around 64 KiB, every tenth an array of 1024..3000 elements, every tenth is 130..430 tiny values - empty arrays alone and as elements, small nested arrays - ending in an array of >= 129 empty arrays and a nested one), parsed through proto.NewParserWithReader over a scripted reader under: whole delivery, 1-byte, 2-byte at both parities, 3-byte, every 2-way split point (all offsets for streams <=400 bytes; all structural offsets and a sample of payload offsets beyond) and 32 random k-way partitions, and seven of these partitions once more with the last byte and the end of stream reported by one and the same read (n>0 together with io.EOF); verdict = exactly those values in order, then (nil,nil). distinct_nontrivial counts distinct (sequence, served read-size sequence) pairs other than whole delivery; counters split:* classify where the split fell"
+			return "case = one sequence of 1..6 generated values plus a sentinel integer, ending in that integer, in a command array or in a bulk string (every tenth sequence carries a bulk around 64 KiB, every tenth an array of 1024..3000 elements, every tenth is 130..430 tiny values - empty arrays alone and as elements, small nested arrays - ending in an array of >= 129 empty arrays and a nested one), parsed through proto.NewParserWithReader over a scripted reader under: whole delivery, 1-byte, 2-byte at both parities, 3-byte, every 2-way split point (all offsets for streams <=400 bytes; all structural offsets and a sample of payload offsets beyond) and 32 random k-way partitions, and seven of these partitions once more with the last byte and the end of stream reported by one and the same read (n>0 together with io.EOF), and up to twelve once more with a read that returns (0, nil) - nothing happened - between every two chunks (half of the large-bulk sequences carry one or two further large bulks of other sizes); verdict = exactly those values in order, then (nil,nil). distinct_nontrivial counts distinct (sequence, served read-size sequence) pairs other than whole delivery; counters split:* classify where the split fell"
 		},
 		Assumptions: []string{"only (n>0,nil) and (0,err) read results are produced, as a net.Conn does", "independent codec resp is correct"},
 		Setup: func(tier string, seed uint64) int {
